@@ -50,7 +50,7 @@ type Features struct {
 }
 
 func CoreFeatures() Features {
-	return Features{Funcs: 6, Closures: 3, Meta: 0, Errors: 2, Coroutines: 0, Goto: 3, Strings: 5, Tables: 6,
+	return Features{Funcs: 6, Closures: 3, Meta: 1, Errors: 2, Coroutines: 0, Goto: 3, Strings: 5, Tables: 6,
 		Varargs: 3, MultiAssign: 6, Fenv: 0, FaultPct: 40, MaxStmts: 40, MaxDepth: 3}
 }
 
